@@ -1205,4 +1205,20 @@ theorem write_item_width (text : List Char) : ∀ pl ∈ physLines (writeItem Cf
   have hn : noNL part = true := by simpa [noNL] using splitOnC_parts '\n' text part hpart
   exact wrap_width part hn pl hpl
 
+/-! ### the comment-aware reading used by the harness coincides with the proven one on comment-free lines -/
+
+theorem code_eq_self (l : List Char) (h : '!' ∉ l) : code l = l := by
+  unfold code
+  induction l with
+  | nil => rfl
+  | cons c cs ih =>
+    have hc : c ≠ '!' := fun e => h (by simp [e])
+    have hcs : '!' ∉ cs := fun e => h (by simp [e])
+    have ih' := ih hcs
+    simp only [List.takeWhile_cons, ne_eq, hc, not_false_eq_true, decide_true, if_true]
+    rw [ih']
+
+theorem flaggedC_eq_flagged (l : List Char) (h : '!' ∉ l) (hr : isRem l = false) : flaggedC l = flagged l := by
+  simp [flaggedC, hr, code_eq_self l h]
+
 end Shelx.C06
